@@ -376,7 +376,70 @@ def r21_7(ctx):
     return rr
 
 
-RULES = [r21_1, r21_2, r21_3, r21_4, r21_5, r21_6, r21_7]
+def r21_8(ctx):
+    rr = RuleResult(
+        "R21.8", "COVER",
+        "the generic translator resolves EVERY element of every container it rebuilds: in _Flattener.resolve each element that enters a rebuilt list / tuple / dict / argument tuple comes out of self.resolve(...)",
+        min_instances=5,
+    )
+    m = ctx.repo.mod("dask_array._frisky.graph_records")
+    fl = m.cls("_Flattener")
+    f = fl.methods.get("resolve")
+    need(f is not None, "_Flattener.resolve")
+    arg = f.node.args.args[1].arg if len(f.node.args.args) > 1 else "arg"
+    # locals that alias (parts of) the argument: items = arg.args, kw = arg.kwargs or {}, ...
+    alias = {arg}
+    for _ in range(3):
+        for n in body_walk(f.node):
+            if isinstance(n, ast.Assign) and len(n.targets) == 1 and isinstance(n.targets[0], ast.Name):
+                if any(isinstance(x, ast.Name) and x.id in alias for x in ast.walk(n.value)) and not any(isinstance(x, ast.Call) and unparse(x.func) == "self.resolve" for x in ast.walk(n.value)):
+                    alias.add(n.targets[0].id)
+
+    def from_arg(e):
+        return any(isinstance(x, ast.Name) and x.id in alias for x in ast.walk(e))
+
+    def resolved(e):
+        return isinstance(e, ast.Call) and unparse(e.func) == "self.resolve"
+
+    n_sites = 0
+    for n in body_walk(f.node):
+        if isinstance(n, (ast.ListComp, ast.GeneratorExp, ast.SetComp)) and any(from_arg(g.iter) for g in n.generators):
+            n_sites += 1
+            c = site(f, n)[:170]
+            rr.inst(c, element=unparse(n.elt)[:60], resolved=resolved(n.elt))
+            if not resolved(n.elt):
+                ctx.finding(rr, c, f"a container is rebuilt from the argument's elements as `{unparse(n.elt)[:50]}` without passing each through self.resolve: a nested node or key reference in that position reaches the record untranslated and its dependency is lost", func=f, node=n)
+        elif isinstance(n, ast.DictComp) and any(from_arg(g.iter) for g in n.generators):
+            n_sites += 1
+            c = site(f, n)[:170]
+            rr.inst(c, value=unparse(n.value)[:60], resolved=resolved(n.value))
+            if not resolved(n.value):
+                ctx.finding(rr, c, f"a dict is rebuilt from the argument's items with value `{unparse(n.value)[:50]}` not passed through self.resolve", func=f, node=n)
+        elif isinstance(n, (ast.For, ast.AsyncFor)) and from_arg(n.iter):
+            targets = {x.id for x in ast.walk(n.target) if isinstance(x, ast.Name)}
+            for b in ast.walk(n):
+                stored = None
+                if isinstance(b, ast.Call) and isinstance(b.func, ast.Attribute) and b.func.attr in ("append", "add", "extend", "insert") and b.args:
+                    stored = b.args[-1]
+                elif isinstance(b, ast.Assign) and any(isinstance(t, ast.Subscript) for t in b.targets):
+                    stored = b.value
+                if stored is None:
+                    continue
+                n_sites += 1
+                c = site(f, b if isinstance(b, ast.stmt) else n)[:150] + f"::{unparse(stored)[:40]}"
+                # every value the stored name can hold inside the loop must come from self.resolve
+                ok = resolved(stored)
+                if not ok and isinstance(stored, ast.Name):
+                    ds = [s_.value for s_ in ast.walk(n) if isinstance(s_, ast.Assign) and any(isinstance(t, ast.Name) and t.id == stored.id for t in s_.targets)]
+                    ok = stored.id not in targets and bool(ds) and all(resolved(d) for d in ds)
+                rr.inst(c, stored=unparse(stored)[:60], resolved=ok)
+                if not ok:
+                    ctx.finding(rr, c, f"inside a loop over the argument's elements `{unparse(stored)[:40]}` is stored into the rebuilt container without (on every path) coming out of self.resolve: elements that are nested nodes or key references stay untranslated and their dependencies are lost", func=f, node=n)
+    need(n_sites >= 5, "container rebuild sites in _Flattener.resolve")
+    return rr
+
+
+RULES = [r21_1, r21_2, r21_3, r21_4, r21_5, r21_6, r21_7, r21_8]
 
 LEVEL_TEXT = (
     "Static decision of the decline-or-complete discipline of the records path: CFG must-pass-through of the completeness "
